@@ -1061,5 +1061,19 @@ theorem c12_shape_NewTreeNode :
     Shapes.tree_NewTreeNode =
    ["Public.String", "uuid.NewSHA1", "TreeNodeID"] := rfl
 
+theorem c12_shape_LocalTest_GenTree :
+    Shapes.local_LocalTest_GenTree =
+   ["l.panicClosed", "l.GenServers", "l.GenRosterFromHost", "list.GenerateBinaryTree",
+     "overlay.RegisterTree"] := rfl
+
+theorem c12_shape_LocalTest_GenBigTree :
+    Shapes.local_LocalTest_GenBigTree =
+   ["l.panicClosed", "l.GenServers", "l.GenRosterFromHost", "list.GenerateBigNaryTree",
+     "if:register", "overlay.RegisterTree", "return:servers,list,tree"] := rfl
+
+theorem c12_shape_LocalTest_GenRosterFromHost :
+    Shapes.local_LocalTest_GenRosterFromHost =
+   ["l.panicClosed", "NewRoster"] := rfl
+
 
 end C12
